@@ -94,10 +94,14 @@ def r1_one_reply(L, repo):
     if REQ is None:
         raise AnalysisError("handle_rx: request not derived from prepare_req()")
     n = 0
+    parse_exc = [x for x in exc if ".parse_cmd(" in x]
     for vals, evs in sorted(rows.items(), key=lambda kv: repr(kv[0])):
         a = dict(zip(atoms, vals))
         sends = [e for e in evs if e[0] == "send"]
         decode_fail = any(a[x] for x in exc if ".decode(" in x)
+        failed = any(a[x] for x in parse_exc)
+        if failed and a[tup[0]]:
+            continue        # infeasible: the error status set by the handler is not a tuple
         if decode_fail:
             # undecodable datagram: must be ignored (no reply possible / demanded)
             want = 0
@@ -110,12 +114,23 @@ def r1_one_reply(L, repo):
             "%s=%d" % (k[:40], v) for k, v in sorted(a.items())), want, [s[1] for s in sends],
             len(sends) == want)
         if want == 1 and len(sends) == 1:
-            if a[tup[0]] == ("tuple is type(%s)" % RC == tup[0] or True) and a[tup[0]]:
-                okform = sends[0][1] == "self.send_response(%s, %s, %s[0], %s[1])" % (REQ, REMOTE, RC, RC)
+            try:
+                call = ast.parse(sends[0][1], mode="eval").body
+                args = [canon(x) for x in call.args] + ["%s=%s" % (k.arg, canon(k.value)) for k in call.keywords]
+            except SyntaxError:
+                args = []
+            rest = [x for x in args[2:] if x not in ("None", "params=None")]
+            if failed:
+                okform = args[:2] == [REQ, REMOTE] and len(rest) == 1 and re.fullmatch(r"-\d+", rest[0]) is not None
+                wanttxt = "send_response(%s, %s, <negative error status>)" % (REQ, REMOTE)
+            elif a[tup[0]]:
+                okform = args[:2] == [REQ, REMOTE] and args[2:] == ["%s[0]" % RC, "%s[1]" % RC]
+                wanttxt = "send_response(%s, %s, %s[0], %s[1])" % (REQ, REMOTE, RC, RC)
             else:
-                okform = sends[0][1] == "self.send_response(%s, %s, %s)" % (REQ, REMOTE, RC)
-            L.ob("C05.R1", FC, fn, "reply carries (request, sender address, status[, results]) [tuple=%d]" % a[tup[0]],
-                 "send_response(%s, %s, status...)" % (REQ, REMOTE), sends[0][1], okform)
+                okform = args[:2] == [REQ, REMOTE] and rest == [RC]
+                wanttxt = "send_response(%s, %s, %s)" % (REQ, REMOTE, RC)
+            L.ob("C05.R1", FC, fn, "reply carries (request, sender address, status[, results]) [tuple=%d, handler error=%d]" % (a[tup[0]], failed),
+                 wanttxt, sends[0][1], okform)
     L.floor("C05.R1", "rows of the receive-path table", n, 4)
     # rc comes from parse_cmd(request), or an error status from an exception handler
     rcdefs = defs.get(RC, [])
@@ -246,6 +261,14 @@ def r3_dispatch_returns(L, repo):
                 intnames.add(n.targets[0].id)
             if ".ctrl_cmd_handler(" in v:
                 intnames.add(n.targets[0].id)
+    # names all of whose assignments are statuses
+    assigned = {}
+    for n in ast.walk(pc):
+        if isinstance(n, ast.Assign) and len(n.targets) == 1 and isinstance(n.targets[0], ast.Name):
+            assigned.setdefault(n.targets[0].id, []).append(ret_kind(n.value))
+    for nm, kinds in assigned.items():
+        if kinds and all(k in ("int", "tuple") for k in kinds):
+            intnames.add(nm)
     for node, val in rets:
         k = ret_kind(val)
         ok = k in ("int", "tuple") or (k.startswith("name:") and k[5:] in intnames)
